@@ -34,8 +34,9 @@ def run(ctx: Ctx) -> None:
                 "draws {1,2} x upstream draws {1,2} and one repeated call; plus the two primitives over rank 0-4, four "
                 "dtypes and factors incl. 0, negatives, 1e3, subnormal. distinct = distinct (op,cfg,shapes) / "
                 "(primitive,shape,dtype,factor).")
-    norm_reqs: List[Any] = []
-    norm_cases: List[Any] = []
+    sreqs: List[Any] = []
+    scases: List[Any] = []
+    cold: List[Any] = []
     corpus = {"embedding": [ops.OpCase("embedding", {"padding_idx": 0, "max_norm": None, "idx_shape": (4, 6), "vocab": 10},
                                        {"weight": (10, 3)}, ["weight"])]}
     for op in ops.OPS:
@@ -47,9 +48,15 @@ def run(ctx: Ctx) -> None:
             ms = []
             with ctx.guard(f"C02:{op}:call", key):
                 for (ds, us) in ((1, 1), (2, 1), (1, 2), (1, 1), (3, 3)):
-                    ms.append(ops.measure(U, case, 10 * i + ds, 100 * i + us))
+                    ms.append(ops.measure(U, case, 10 * i + ds, 100 * i + us, warm=(i % 4 == 0 and len(ms) == 0)))
             if len(ms) < 5:
                 continue
+            sr = ops.model_request(case)
+            if sr is not None:
+                sreqs.append(sr)
+                scases.append((case, key, ms[0]))
+            if i % 4 == 0:
+                cold.append((case, 10 * i + 1, 100 * i + 1, key, ms[0]))
             for name in case.diff:
                 if op == "rms_norm" and name == "input":
                     # the library computes the RMS in float32, and the input gradient of a normalisation is a difference
@@ -80,11 +87,53 @@ def run(ctx: Ctx) -> None:
                 if b is not None and not math.isnan(b) and not rel_close(b, 1.0, 1e-5 if op == "rms_norm" else 1e-12):
                     ctx.disagree("norm_input_grad_one", key, 1.0, b, ["USProofs.C01.norm_input_grad_one"])
 
-    # ---- the two primitives
+    # ---- call-history independence: the scalars measured above after lower-precision warm-up calls equal the scalars a
+    #      fresh process measures for the same configuration with no history at all
+    if cold:
+        import os
+        import pickle
+        import subprocess
+        import sys
+        import json as _json
+        with ctx.guard("C02:cold-process", {"cases": len(cold)}):
+            p = subprocess.run([sys.executable, "-m", "harness.cold"], input=pickle.dumps([(c, d, u) for c, d, u, _, _ in cold]),
+                               stdout=subprocess.PIPE, stderr=subprocess.PIPE, timeout=1800,
+                               cwd=os.path.dirname(os.path.dirname(os.path.dirname(os.path.abspath(__file__)))))
+            if p.returncode != 0:
+                raise RuntimeError("cold process failed: " + p.stderr.decode()[-400:])
+            for (case, _, _, key, m), r in zip(cold, _json.loads(p.stdout.decode())):
+                ctx.count({**key, "cold": True}, bucket="history")
+                if "err" in r:
+                    continue
+                tol = 1e-5 if case.op == "rms_norm" else 1e-10
+                for n in case.diff:
+                    b0, b1 = r["bwd"].get(n), m.bwd.get(n)
+                    if b0 is None or b1 is None or math.isnan(b1):
+                        continue
+                    if not rel_close(b0, b1, tol):
+                        ctx.violation(f"C02:{case.op}:{n}:history", "gradient scalar depends on the calls made before it "
+                                      "(fresh process vs after bfloat16/float32 calls of the same configuration)",
+                                      {**key, "wrt": n}, {"fresh": b0, "after_warm_up": b1})
+
+    # ---- correspondence: the fitted gradient scalars are the model's bwdScale_i(shapes, hyperparameters)
+    if ctx.driver_ok and sreqs:
+        for (case, key, m), r in zip(scases, driver.ask(sreqs)):
+            if "err" in r:
+                ctx.disagree("bwd_scales", key, r, m.bwd, THMS)
+                continue
+            mb = dict(zip(ops.model_bwd_names(case), [b2f(x) for x in r["bwd"]]))
+            if case.op == "cross_entropy":
+                # the reference takes mult * logits, so its input gradient already carries the factor mult
+                mb = {k: v / case.cfg.get("mult", 1.0) for k, v in mb.items()}
+            tol = 1e-5 if case.op == "rms_norm" else 1e-9
+            if any((not math.isnan(m.bwd[n])) and not rel_close(mb[n], m.bwd[n], tol) for n in case.diff):
+                ctx.disagree("bwd_scales", key, mb, m.bwd, THMS)
+
+    # ---- the two primitives (lower precisions first, so that nothing cached for one dtype can hide in a wider one)
     factors = [0.0, -0.0, 1.0, -1.0, 1e3, -1e3, 0.5, -3.25, 1e-310, 7.0]
     factors += [rng.uniform(-1e3, 1e3) for _ in range(4 if quick else 40)]
     shapes = [(), (1,), (3,), (2, 3), (2, 1, 4), (2, 3, 1, 2)]
-    for dt in (torch.float64, torch.float32, torch.bfloat16, torch.float16):
+    for dt in (torch.bfloat16, torch.float16, torch.float32, torch.float64):
         for shape in shapes:
             for c in factors:
                 x = torch.randn(shape, dtype=torch.float64).to(dt)
